@@ -1,1 +1,275 @@
-import Depccg.Unify
+/-
+  C06  Pattern matching of categories succeeds exactly when it should.
+  Property theorems only; definitions and statements are in Depccg/Props/C06Defs.lean (unchanged),
+  helper lemmas in Depccg/Proofs/C06Lemmas.lean.
+-/
+import Depccg.Props.C06Defs
+import Depccg.Proofs.C06Lemmas
+
+namespace Depccg.C06
+open Depccg Cat Str Unify
+
+/-! ### the object protocol -/
+
+/-- nor before the matcher was used -/
+theorem no_binding_before_call : NoBindingBeforeCallStatement := by
+  intro px py k
+  rfl
+
+theorem call_fresh (px py x y : Cat) :
+    (∃ σ, Obj.call (.fresh px py) x y = (.ok true, .succeeded σ)) ∨
+    (∃ r, r ≠ .ok true ∧ Obj.call (.fresh px py) x y = (r, .failed)) := by
+  cases h : unify px py x y with
+  | error e => exact Or.inr ⟨.error e, ⟨fun h' => (by cases h'), (by simp only [Obj.call, h])⟩⟩
+  | ok r =>
+    cases r with
+    | none => exact Or.inr ⟨.ok false, ⟨fun h' => (by cases h'), (by simp only [Obj.call, h])⟩⟩
+    | some σ => exact Or.inl ⟨σ, (by simp only [Obj.call, h])⟩
+
+/-- after a failure no binding can be read -/
+theorem no_binding_after_failure : NoBindingAfterFailureStatement := by
+  intro px py x y k h
+  rcases call_fresh px py x y with ⟨σ, hσ⟩ | ⟨r, _, hr⟩
+  · rw [hσ] at h; cases h
+  · rw [hr]; rfl
+
+/-- a matcher answers only once: every later call raises RuntimeError and changes nothing -/
+theorem answers_once : AnswersOnceStatement := by
+  intro px py x y x' y'
+  rcases call_fresh px py x y with ⟨σ, hσ⟩ | ⟨r, _, hr⟩
+  · simp only [hσ]
+    exact ⟨rfl, fun _ => rfl⟩
+  · simp only [hr]
+    exact ⟨rfl, fun _ => rfl⟩
+
+/-! ### the grammar's patterns -/
+
+instance (p : Cat) : Decidable (Linear p) := inferInstanceAs (Decidable (vars p).Nodup)
+
+/-- executable form of `VarsOK` -/
+def varsOKb (p : Cat) : Bool :=
+  (vars p).all fun v => match v with
+    | [c] => !(decide (48 ≤ c) && decide (c ≤ 57))
+    | _ => false
+
+theorem varsOK_of_varsOKb {p : Cat} (h : varsOKb p = true) : VarsOK p := by
+  intro v hv
+  have := List.all_eq_true.1 h v hv
+  match v, this with
+  | [c], this =>
+    refine ⟨c, rfl, ?_⟩
+    simp at this
+    omega
+
+/-- the six English and ten Japanese pattern pairs are linear with single-letter variables -/
+theorem grammar_patterns_ok : GrammarPatternsOKStatement := by
+  have h : grammarPatterns.all (fun p =>
+      decide (Linear p.1) && decide (Linear p.2) && varsOKb p.1 && varsOKb p.2) = true := by
+    decide
+  intro p hp
+  have := List.all_eq_true.1 h p hp
+  simp only [Bool.and_eq_true, decide_eq_true_eq] at this
+  exact ⟨this.1.1.1, this.1.1.2, varsOK_of_varsOKb this.1.2, varsOK_of_varsOKb this.2⟩
+
+/-! ### the call -/
+
+/-- within one feature system matching never raises -/
+theorem unify_total : UnifyTotalStatement := by
+  intro px py x y sk
+  rcases unify_cases px py x y with h | ⟨cats1, xf, cats2, yf, h1, h2, h⟩
+  · exact ⟨_, h⟩
+  · obtain ⟨_, _, rfl⟩ := scan_ok h1
+    obtain ⟨_, _, rfl⟩ := scan_ok h2
+    have hv := visitable_shared sk (fun k f => writes_values (p := px) (t := x) (k := k))
+      (fun k f => writes_values (p := py) (t := y) (k := k))
+    obtain ⟨r, hr⟩ := agree_total hv []
+    rw [hr] at h
+    cases r with
+    | none => exact ⟨_, h⟩
+    | some m => exact ⟨_, h⟩
+
+/-- a variable of neither pattern has no binding (KeyError) -/
+theorem unknown_var : UnknownVarStatement := by
+  intro px py x y σ v h hv
+  obtain ⟨cats1, xf, cats2, yf, m, h1, h2, _, rfl⟩ := unify_some_iff.1 h
+  simp only [List.mem_append, not_or] at hv
+  have e2 := scan_cats_notin hv.2 y cats1 []
+  have e1 := scan_cats_notin hv.1 x [] []
+  rw [h2] at e2
+  rw [h1] at e1
+  simp only at e1 e2
+  have : Dict.get? cats2 v = none := by rw [e2, e1]; rfl
+  simp only [Bindings.get, this]
+
+/-- on success each variable's binding is the matched sub-category with at most its variable
+    features replaced by features from the inputs -/
+theorem binding_spec : BindingSpecStatement := by
+  intro px py x y σ lx ly h v hv
+  obtain ⟨cats1, xf, cats2, yf, m, h1, h2, ha, rfl⟩ := unify_some_iff.1 h
+  obtain ⟨s1, rfl, rfl⟩ := scan_ok h1
+  obtain ⟨s2, rfl, rfl⟩ := scan_ok h2
+  have hm : MapOK (feats x ++ feats y) m :=
+    agree_mapOK (fun k f hf => List.mem_append_left _ (writes_values hf))
+      (fun k f hf => List.mem_append_right _ (writes_values hf)) (MapOK.nil _) ha
+  have fmx := matched_functional lx x
+  have fmy := matched_functional ly y
+  -- the matched sub-category and what `cats` holds
+  have key : ∃ c, lastMatched px py x y v = some c ∧
+      Dict.get? (setAll (setAll ([] : Dict Str Cat) (matched px x)) (matched py y)) v = some c := by
+    rw [lastMatched_eq]
+    by_cases hpy : v ∈ vars py
+    · obtain ⟨c, hc⟩ := matched_of_shape s2 hpy
+      refine ⟨c, ?_, ?_⟩
+      · rw [fmy.get?_iff.2 hc]
+      · exact (get?_setAll _ fmy _ _ _).2 (Or.inl hc)
+    · have hpx : v ∈ vars px := by
+        rcases List.mem_append.1 hv with h | h
+        · exact h
+        · exact absurd h hpy
+      have hn : ∀ c, (v, c) ∉ matched py y := fun c hc => hpy (mem_matched_vars hc)
+      obtain ⟨c, hc⟩ := matched_of_shape s1 hpx
+      refine ⟨c, ?_, ?_⟩
+      · rw [get?_eq_none_iff.2 hn, fmx.get?_iff.2 hc]
+      · exact (get?_setAll _ fmy _ _ _).2 (Or.inr ⟨hn, (get?_setAll_nil _ fmx _ _).2 hc⟩)
+  obtain ⟨c, hl, hg⟩ := key
+  refine ⟨c, subst m c, hl, ?_, instanceOf_subst hm c, xorEq_subst m c⟩
+  simp only [Bindings.get, hg]
+
+/-- matching succeeds exactly when both categories have the required shape, shared variables
+    stand for feature-blind identical sub-categories, and features at corresponding positions
+    are compatible -/
+theorem unify_ok_iff : UnifyOkIffStatement := by
+  intro px py x y lx ly vx vy sk
+  have fwx := writes_functional lx vx x
+  have fwy := writes_functional ly vy y
+  have fmx := matched_functional lx x
+  have hvis : Visitable (setAll [] (writes px x)) (setAll [] (writes py y))
+      (sharedVars (setAll [] (writes px x)) (setAll [] (writes py y))) :=
+    visitable_shared sk (fun k f => writes_values (p := px) (t := x) (k := k))
+      (fun k f => writes_values (p := py) (t := y) (k := k))
+  constructor
+  · rintro ⟨σ, hσ⟩
+    obtain ⟨cats1, xf, cats2, yf, m, h1, h2, ha, _⟩ := unify_some_iff.1 hσ
+    obtain ⟨s1, rfl, rfl⟩ := scan_ok h1
+    obtain ⟨s2, _, rfl⟩ := scan_ok h2
+    have hb : SharedBlind px py x y := by
+      intro v tx ty hx hy
+      have := (scan_true_iff ly y (setAll [] (matched px x)) []).1 (by rw [h2])
+      exact this.2 v ty tx hy ((get?_setAll_nil _ fmx v tx).2 hx)
+    refine ⟨s1, s2, hb, ?_⟩
+    rw [← featCompat_iff vx vy hb]
+    intro k f g hkf hkg
+    have hf := (get?_setAll_nil _ fwx k f).2 hkf
+    have hg := (get?_setAll_nil _ fwy k g).2 hkg
+    exact (agree_ok_iff hvis []).1 ⟨m, ha⟩ k (mem_sharedVars.2 ⟨⟨f, hf⟩, ⟨g, hg⟩⟩) f g hf hg
+  · rintro ⟨s1, s2, hb, hc⟩
+    have h1 : (scan px x [] []).1 = true :=
+      (scan_true_iff lx x [] []).2 ⟨s1, by intro v t' c _ hc; simp [Dict.get?] at hc⟩
+    rcases hsc1 : scan px x [] [] with ⟨b1, cats1, xf⟩
+    rw [hsc1] at h1
+    simp only at h1
+    subst h1
+    obtain ⟨_, rfl, rfl⟩ := scan_ok hsc1
+    have h2 : (scan py y (setAll [] (matched px x)) []).1 = true :=
+      (scan_true_iff ly y _ []).2
+        ⟨s2, fun v t' c hv hc => hb v c t' ((get?_setAll_nil _ fmx v c).1 hc) hv⟩
+    rcases hsc2 : scan py y (setAll [] (matched px x)) [] with ⟨b2, cats2, yf⟩
+    rw [hsc2] at h2
+    simp only at h2
+    subst h2
+    obtain ⟨_, _, rfl⟩ := scan_ok hsc2
+    obtain ⟨m, hm⟩ := (agree_ok_iff hvis []).2 (by
+      intro k _ f g hf hg
+      exact (featCompat_iff vx vy hb).2 hc k f g ((get?_setAll_nil _ fwx k f).1 hf)
+        ((get?_setAll_nil _ fwy k g).1 hg))
+    exact ⟨⟨cats2, m⟩, unify_some_iff.2 ⟨_, _, _, _, m, hsc1, hsc2, hm, rfl⟩⟩
+
+/-! ### non-vacuity -/
+
+section Examples
+open Depccg.Pat
+
+/-- `S[X]/NP[X]` -/
+def exX : Cat := .fn (.atom (lit "S") (.un (some (lit "X")))) cSlash (.atom (lit "NP") (.un (some (lit "X"))))
+/-- `NP[mod]` -/
+def exY : Cat := .atom (lit "NP") (.un (some (lit "mod")))
+/-- `N` -/
+def exN : Cat := .atom (lit "N") (.un none)
+/-- `S[dcl]/NP[a]` and `NP[b]` -/
+def exA : Cat := .fn (.atom (lit "S") (.un (some (lit "dcl")))) cSlash (.atom (lit "NP") (.un (some (lit "a"))))
+def exB : Cat := .atom (lit "NP") (.un (some (lit "b")))
+
+theorem ex_hyps : Linear (fwd a b) ∧ Linear b ∧ VarsOK (fwd a b) ∧ VarsOK b :=
+  grammar_patterns_ok (fwd a b, b) (by decide)
+
+theorem ex_sameKind (x y : Cat) (h : (feats x ++ feats y).all (fun f => match f with | .un _ => true | _ => false) = true) :
+    SameKind x y := by
+  refine Or.inl fun f hf => ?_
+  have := List.all_eq_true.1 h f hf
+  cases f with
+  | un v => exact ⟨v, rfl⟩
+  | tri => cases this
+
+/-- forward application of `S[X]/NP[X]` to `NP[mod]` matches: `a ↦ S[mod]`, `b ↦ NP[mod]` -/
+example : ∃ σ, unify (fwd a b) b exX exY = .ok (some σ) ∧
+    σ.get [97] = .ok (.atom (lit "S") (.un (some (lit "mod")))) ∧
+    σ.get [98] = .ok exY ∧ σ.get [99] = .error .keyError :=
+  ⟨_, rfl, by decide, by decide, by decide⟩
+
+example : Succeeds (fwd a b) b exX exY := ⟨_, rfl⟩
+
+/-- the characterisation applies to it (all hypotheses hold) and gives the declarative side -/
+example : Shape (fwd a b) exX ∧ Shape b exY ∧ SharedBlind (fwd a b) b exX exY ∧
+    FeatCompat (fwd a b) b exX exY :=
+  (unify_ok_iff (fwd a b) b exX exY ex_hyps.1 ex_hyps.2.1 ex_hyps.2.2.1 ex_hyps.2.2.2
+    (ex_sameKind _ _ (by decide))).1 ⟨_, rfl⟩
+
+/-- and the binding specification applies to it -/
+example : ∃ c b', lastMatched (fwd a b) b exX exY [97] = some c ∧
+    c = .atom (lit "S") (.un (some (lit "X"))) ∧ b' = .atom (lit "S") (.un (some (lit "mod"))) ∧
+    InstanceOf (feats exX ++ feats exY) b' c :=
+  ⟨_, _, rfl, rfl, rfl, by simp [InstanceOf, Feat.isVariable, feats, exX, exY]⟩
+
+/-- a failing match: `S[X]/NP[X]` does not apply to `N` (the shared variable `b` would stand
+    for `NP[X]` and for `N`) -/
+example : unify (fwd a b) b exX exN = .ok none := rfl
+
+example : ¬ Succeeds (fwd a b) b exX exN := by
+  rintro ⟨σ, h⟩
+  rw [show unify (fwd a b) b exX exN = .ok none from rfl] at h
+  cases h
+
+example : ¬ SharedBlind (fwd a b) b exX exN := by
+  intro h
+  have := h [98] (.atom (lit "NP") (.un (some (lit "X")))) exN (by decide) (by decide)
+  exact absurd this (by decide)
+
+/-- a failing match because of incompatible features: `S[dcl]/NP[a]` with `NP[b]` -/
+example : unify (fwd a b) b exA exB = .ok none := rfl
+
+example : ¬ FeatCompat (fwd a b) b exA exB := by
+  intro h
+  have h' := (unify_ok_iff (fwd a b) b exA exB ex_hyps.1 ex_hyps.2.1 ex_hyps.2.2.1 ex_hyps.2.2.2
+    (ex_sameKind _ _ (by decide))).2
+      ⟨⟨by decide, trivial, trivial⟩, trivial, ?_, h⟩
+  · obtain ⟨σ, hσ⟩ := h'
+    rw [show unify (fwd a b) b exA exB = .ok none from rfl] at hσ
+    cases hσ
+  · intro v tx ty hx hy
+    simp [matched, Pat.fwd, Pat.a, Pat.b, exA, exB] at hx hy
+    rcases hx with ⟨rfl, rfl⟩ | ⟨rfl, rfl⟩
+    · simp at hy
+    · rw [hy.2]; decide
+
+/-- without linearity the characterisation would fail: `a/a` on `S/NP` has the right shape and
+    nothing shared with the second pattern, yet does not match -/
+example : unify (fwd a a) b (.fn (.atom (lit "S") (.un none)) cSlash (.atom (lit "NP") (.un none))) exN
+    = .ok none := rfl
+
+/-- mixed feature systems make the call raise (why `SameKind` is assumed) -/
+example : unify b b (.atom (lit "NP") (.tri [107] [118] [107] [118] [107] [118])) exY
+    = .error .attributeError := rfl
+
+end Examples
+
+end Depccg.C06
